@@ -1,5 +1,6 @@
 """Property id -> check function(work, tier, seed, replay) -> exit code."""
-import checks_seq
+import checks_seq, checks_ops
 
 CHECKS = {}
 CHECKS.update(checks_seq.CHECKS)
+CHECKS.update(checks_ops.CHECKS)
